@@ -26,6 +26,8 @@ def run(prog, chk):
     C02.root_synthesis(prog, chk)
     C03.bypass(prog, chk)
     C03.stable_sort(prog, chk)
+    C03.real_svg_scan(prog, chk)
+    C03.reader_defaults(prog, chk)
     normalisation_idempotent(prog, chk)
     # findings of C02/C03 that do not break the fixed point are not obligations of this property
     drop = {
